@@ -60,8 +60,25 @@ def parse_msg(m):
     return d
 
 
-def signature(d):
+def corner_hit(d, a):
+    """GEOSClipByRect only: does a vertex of the input coincide with a corner of the clip rectangle? (exact, on the bit patterns)"""
+    t = d["opv"].split(":")
+    if len(t) < 6 or a is None:
+        return False
+    x0, y0, x1, y1 = t[2:6]
+    def canon(h):          # -0.0 == 0.0
+        return "0000000000000000" if h == "8000000000000000" else h
+    xs, ys = {canon(x0), canon(x1)}, {canon(y0), canon(y1)}
+    toks = a.split()
+    for i in range(len(toks) - 1):
+        if len(toks[i]) == 16 and len(toks[i + 1]) == 16 and canon(toks[i]) in xs and canon(toks[i + 1]) in ys:
+            return True
+    return False
+
+
+def signature(d, a=None):
     """Structural key of a failing record, used to match KNOWN_FINDINGS.json.
+    class clip: + cornerHit (a vertex of the input lies exactly on a corner of the clip rectangle)
     class : pointset (a face / 1-cell / node of the arrangement has the wrong membership; dir = missing | extra)
             | invalid | exception (+ exc) | crash | emptyrule | emptytype | dim | type | area | clip
     gc    : an input is a GeometryCollection (handled by StructuredCollection in HeuristicOverlay.cpp)
@@ -89,6 +106,8 @@ def signature(d):
                 sig["dims"] = ",".join(str(x) for x in sorted(int(x) for x in d.get("dims", "").split(",")))
             except ValueError:
                 sig["dims"] = "?"
+    if sig["class"] == "clip":       # GEOSClipByRect has one operand: the other operand's features are irrelevant
+        return {"class": "clip", "op": "clip", "gc": sig["gc"], "cornerHit": corner_hit(d, a)}
     return sig
 
 
@@ -234,7 +253,7 @@ def run(ctx):
             a, b, ops = split_case(case)
             for m in got.split(" ;; "):
                 d = parse_msg(m)
-                sig0 = signature(d)
+                sig0 = signature(d, a)
                 key = json.dumps(sig0, sort_keys=True)
                 classes[key] = classes.get(key, 0) + 1
                 if sig0 in seen:
@@ -247,7 +266,7 @@ def run(ctx):
                 if shrunk < (8 if quick else 20) and d["clause"] != "area":
                     sa, sb, sd = shrink(exe, a, b, d, budget=90 if quick else 300)
                     shrunk += 1
-                sig = signature(sd)
+                sig = signature(sd, sa)
                 if sig != sig0 and sig in seen:
                     continue
                 if sig not in seen:
